@@ -966,7 +966,9 @@ func (fc *FnCtx) lvalue(st *State, e ast.Expr) loc {
 				}
 			}
 			fc.eval(st, x.X)
-			fc.eval(st, x.Index)
+			if kv, isInt := fc.eval(st, x.Index).(VInt); isInt {
+				fc.onIndex(st, x, kv.T) // `on index M(k)` also hooks assignments to entries of a map variable M
+			}
 			return loc{kind: 3, typ: fc.typeOf(e)}
 		case *types.Pointer: // pointer to array
 			return loc{kind: 3, typ: fc.typeOf(e)}
